@@ -76,7 +76,12 @@ fn tokenize_multi(ops: &[MOp]) -> Vec<MOp> {
                 token_line(n, l)
             })
             .collect();
-        lines.join("\n")
+        // (log text may come with CRLF line ends - every third text does, with or without a final one)
+        match (keep_blank, n % 6) {
+            (true, 0) => lines.join("\r\n"),
+            (true, 3) => lines.join("\r\n") + "\r\n",
+            _ => lines.join("\n"),
+        }
     };
     ops.iter()
         .map(|op| match op {
@@ -182,7 +187,7 @@ fn multi_strategy(tier: Tier) -> BoxedStrategy<MultiCase> {
     let n = tier.pick(30, 50);
     // scenario prefix named by the statement: a non-first bar finishes and is dropped before the
     // first, ticks while it waits to be reaped, then println / bar println / clear
-    let leave = |msg: &str| BarSpec { two_lines: false, len: Some(5), on_finish: 0, msg: msg.to_string() };
+    let leave = |msg: &str| BarSpec { two_lines: false, len: Some(5), on_finish: 0, msg: msg.to_string(), key_nl: false };
     let prefix = (0usize..4).prop_map(move |k| {
         let mut v = vec![MOp::Add(leave("")), MOp::Add(leave("")), MOp::MpPrintln("first".into()), MOp::Tick(0), MOp::Tick(40000)];
         match k {
@@ -323,16 +328,22 @@ fn run_single(c: &SingleCase) -> CaseResult {
     for (i, op) in c.ops.iter().enumerate() {
         // unique tokens instead of the generated log texts
         let op = match op {
-            BOp::Println(t) => BOp::Println(
-                println_lines(t)
+            BOp::Println(t) => {
+                let j = println_lines(t)
                     .iter()
                     .map(|l| {
                         n += 1;
                         token_line(n, l)
                     })
                     .collect::<Vec<_>>()
-                    .join("\n"),
-            ),
+                    .join("\n");
+                // (log text may come with CRLF line ends, with or without a final one)
+                BOp::Println(match n % 6 {
+                    0 => j.replace('\n', "\r\n"),
+                    3 => j.replace('\n', "\r\n") + "\r\n",
+                    _ => j,
+                })
+            }
             BOp::Suspend(ls) => BOp::Suspend(
                 ls.iter()
                     .map(|l| {
@@ -408,7 +419,7 @@ fn decode_c03_multi(u: &mut FuzzInput) -> MultiCase {
     c.hz = if u.n(3) == 0 { None } else { Some([1u8, 2, 20, 60, 255][u.n(4)]) };
     c.step_ms = [0u32, 0, 1, 20, 2000][u.n(4)];
     // limiter exhausted first, as in the generated scenarios
-    let mut pre = vec![MOp::Add(BarSpec { two_lines: false, len: Some(5), on_finish: 0, msg: String::new() }), MOp::Add(BarSpec { two_lines: false, len: Some(5), on_finish: 0, msg: String::new() })];
+    let mut pre = vec![MOp::Add(BarSpec { two_lines: false, len: Some(5), on_finish: 0, msg: String::new(), key_nl: false }), MOp::Add(BarSpec { two_lines: false, len: Some(5), on_finish: 0, msg: String::new(), key_nl: false })];
     pre.extend(std::iter::repeat(MOp::Tick(0)).take(22));
     pre.append(&mut c.ops);
     c.ops = pre;
